@@ -286,6 +286,11 @@ func strEqTerm(a, b symstr) *Term {
 }
 
 func numericDelimited(ps []spiece) bool {
+	// bytes that may belong to the rendering of the piece kind
+	inInt := func(c byte) bool { return isDigitByte(c) || c == '-' }
+	inFloat := func(c byte) bool {
+		return isDigitByte(c) || c == '-' || c == '+' || c == '.' || c == 'e' || c == 'E' || c == 'N' || c == 'a' || c == 'I' || c == 'n' || c == 'f'
+	}
 	for i, p := range ps {
 		if p.k != pkItoa && p.k != pkUtoa && p.k != pkFtoa {
 			if p.k == pkOpaque {
@@ -293,23 +298,19 @@ func numericDelimited(ps []spiece) bool {
 			}
 			continue
 		}
+		in := inInt
+		if p.k == pkFtoa {
+			in = inFloat
+		}
 		if i > 0 {
 			q := ps[i-1]
-			if q.k != pkBytes {
-				return false
-			}
-			c := q.s[len(q.s)-1]
-			if isDigitByte(c) || c == '-' || c == '.' || c == 'e' || c == '+' {
+			if q.k != pkBytes || in(q.s[len(q.s)-1]) {
 				return false
 			}
 		}
 		if i+1 < len(ps) {
 			q := ps[i+1]
-			if q.k != pkBytes {
-				return false
-			}
-			c := q.s[0]
-			if isDigitByte(c) || c == '.' || c == 'e' || c == '-' || c == '+' {
+			if q.k != pkBytes || in(q.s[0]) && !(p.k != pkFtoa && q.s[0] == '-') {
 				return false
 			}
 		}
